@@ -6,6 +6,7 @@ import (
 	"fmt"
 	"sort"
 	"strings"
+	"time"
 
 	el "github.com/hashicorp/eventlogger"
 	"verif/vrt"
@@ -58,8 +59,10 @@ type Scenario struct {
 	Cancel   int // 0 none, 1 concurrent canceller thread, 2 cancelled before Send
 	Thr      int // -1: leave unset
 	ThrSinks int
-	Bound    int
-	Permute  bool
+	// TimePasses: a thread lets an hour of virtual time pass and only then releases the blocked nodes
+	TimePasses bool
+	Bound      int
+	Permute    bool
 }
 
 // Obs is what one execution of a scenario observed.
@@ -72,9 +75,14 @@ type Obs struct {
 	Payload      any
 	CancelBefore bool
 	Nodes        map[string]*Node
+	Broker       *el.Broker // the broker the Send went through (for follow-up calls by the check)
 }
 
 func policyOpt(p string, node bool) []el.Option {
+	if i := strings.Index(p, "+"); i >= 0 {
+		// several options in one call: an invalid one stays invalid whatever follows it
+		return append(policyOpt(p[:i], node), policyOpt(p[i+1:], node)...)
+	}
 	var pol el.RegistrationPolicy
 	switch p {
 	case "":
@@ -156,7 +164,7 @@ func (sc *Scenario) Run() *Obs {
 	ctx, cancelCause := context.WithCancelCause(context.Background())
 	cancel := func() { cancelCause(errCallerCause) }
 	defer cancel()
-	o := &Obs{Log: log, Nodes: objs}
+	o := &Obs{Log: log, Nodes: objs, Broker: b}
 	payload := &struct{ X int }{42}
 	o.Payload = payload
 	switch sc.Cancel {
@@ -165,6 +173,14 @@ func (sc *Scenario) Run() *Obs {
 		o.CancelBefore = true
 	case 1:
 		vrt.GoNamed("canceller", func() { cancel() })
+	}
+	if sc.TimePasses {
+		// an hour of (virtual) time goes by while nodes are still busy, then they finish: a Send whose
+		// caller set no deadline and never cancels waits for them, however long they take
+		vrt.GoNamed("time", func() {
+			vrt.AdvanceClock(int64(time.Hour))
+			gate.Open()
+		})
 	}
 	o.Status, o.Err = b.Send(ctx, el.EventType(sc.SendType), payload)
 	o.CtxErrAfter = ctx.Err()
